@@ -23,6 +23,8 @@ use std::path::Path;
 #[global_allocator]
 static ALLOC: Counting = Counting;
 
+/// whole text files up to this size are also evaluated by the model of the whole parser
+const TEXT_CASE_MAX_BYTES: usize = 4096;
 pub const K_MDESC: u8 = 6;
 pub const K_RDESC: u8 = 7;
 
@@ -117,7 +119,10 @@ fn run_one_(kind: u8, bytes: &[u8], scratch: &Path) -> ((Res, Option<Res>), u64)
 		K_TINY => {
 			let (a, _) = res_of(guarded(|| quill::tiny_v2::read::<2, NsA>(bytes)));
 			let (b, _) = res_of(guarded(|| quill::tiny_v2::read::<3, NsA>(bytes)));
-			if b.bad() { (b, None) } else { (a, None) }
+			let (c, _) = res_of(guarded(|| quill::tiny_v2::read::<1, NsA>(bytes)));
+			// what the readers for one and for three namespaces answered, for the whole-file cases
+			aux = 4 | (c == Res::Ok) as u64 | ((b == Res::Ok) as u64) << 1;
+			if b.bad() { (b, None) } else if c.bad() { (c, None) } else { (a, None) }
 		}
 		K_DIFF => {
 			if std::fs::write(scratch, bytes).is_err() { return ((Res::Crash("cannot write scratch file".into()), None), 0); }
@@ -136,9 +141,10 @@ fn run_one_(kind: u8, bytes: &[u8], scratch: &Path) -> ((Res, Option<Res>), u64)
 			use duke::tree::field::FieldDescriptorSlice;
 			use duke::tree::method::MethodDescriptorSlice;
 			let js = match java_string::JavaString::from_modified_utf8(bytes.to_vec()) { Ok(s) => s, Err(_) => java_string::JavaString::from(String::from_utf8_lossy(bytes).into_owned()) };
-			let f = guarded(|| unsafe { FieldDescriptorSlice::from_inner_unchecked(&js) }.parse().map(|_| ()));
-			let m = guarded(|| unsafe { MethodDescriptorSlice::from_inner_unchecked(&js) }.parse().map(|_| ()));
-			let r = guarded(|| unsafe { ReturnDescriptorSlice::from_inner_unchecked(&js) }.parse().map(|_| ()));
+			// what parses is also printed again (ParsedFieldDescriptor::write and friends contain assertions)
+			let f = guarded(|| unsafe { FieldDescriptorSlice::from_inner_unchecked(&js) }.parse().map(|p| { let _ = p.write(); }));
+			let m = guarded(|| unsafe { MethodDescriptorSlice::from_inner_unchecked(&js) }.parse().map(|p| { let _ = p.write(); }));
+			let r = guarded(|| unsafe { ReturnDescriptorSlice::from_inner_unchecked(&js) }.parse().map(|p| { let _ = p.write(); }));
 			let names = guarded(|| {
 				use duke::tree::class::{ArrClassName, ClassName, ObjClassName};
 				(ClassName::is_valid(&js), ArrClassName::is_valid(&js), ObjClassName::is_valid(&js), duke::tree::method::MethodName::is_valid(&js), duke::tree::field::FieldName::is_valid(&js))
@@ -342,8 +348,12 @@ fn case_inputs(rng: &mut Rng, thorough: bool, out: &mut Vec<Input>) {
 		out.push(Input { kind: K_CLASS, form: Form::Raw(b.clone()), stream: "case-shared-arguments", label: format!("{k} invokedynamic instructions sharing one bootstrap method with {a} Integer arguments"), shape: "shared-bootstrap-arguments", case: Some(format!("CShared {k} {a} {}", b.len())) });
 	}
 	// nesting limits
-	for depth in [0usize, 1, 2, 10, 63, 64, 65, 66, 67, 100, 1000] {
+	for depth in [0usize, 1, 2, 3, 10, 63, 64, 65, 66, 67, 100, 126, 127, 128, 129, 130, 131, 1000] {
 		if depth > 0 {
+			// the same four nesting patterns as the value of an AnnotationDefault (entry through read_element_value_unnamed)
+			for mode in 0..4u8 {
+				out.push(mk("case-nesting", format!("CNest {} {depth}", 5 + mode), format!("AnnotationDefault: element value nested {depth} deep, pattern {mode} (0 arrays, 1 annotations, 2 alternating array first, 3 alternating annotation first)"), gen::annotation_default_class(depth, mode)));
+			}
 			out.push(mk("case-nesting", format!("CNest 0 {depth}"), format!("RuntimeVisibleAnnotations: arrays nested {depth} deep"), gen::deep_annotation_class("RuntimeVisibleAnnotations", depth, false)));
 			out.push(mk("case-nesting", format!("CNest 1 {depth}"), format!("RuntimeInvisibleAnnotations: annotations nested {depth} deep"), gen::deep_annotation_class("RuntimeInvisibleAnnotations", depth, true)));
 			out.push(mk("case-nesting", format!("CNest 3 {depth}"), format!("RuntimeVisibleAnnotations: arrays and annotations alternating, nested {depth} deep, array outermost"), gen::deep_annotation_class_mode("RuntimeVisibleAnnotations", depth, 2)));
@@ -366,8 +376,10 @@ fn case_inputs(rng: &mut Rng, thorough: bool, out: &mut Vec<Input>) {
 		out.push(Input { kind: K_TINY, form: Form::Raw(t), stream: "case-line", label: format!("tiny v2 header followed by the line {l:02x?}"), shape: "", case: Some(format!("CLine {}", gnums(l.iter().map(|&x| x as u64)))) });
 	}
 	// descriptors (exact Ok/Err against the C18 model)
-	let alpha = cps_str("BILV[();/.a$<>");
-	let mut descs: Vec<Vec<u32>> = vec![vec![], cps_str("I"), cps_str("[[Ljava/lang/Object;"), cps_str("(I[J)V"), cps_str("L;"), cps_str("La//b;"), cps_str("()"), cps_str("(V)V"), cps_str("Lé;"), [vec!['[' as u32; 255], cps_str("I")].concat(), [vec!['[' as u32; 256], cps_str("I")].concat()];
+	let alpha = cps_str("BCDFIJSZLV[();/.a$<>");
+	let mut descs: Vec<Vec<u32>> = vec![vec![], cps_str("I"), cps_str("[[Ljava/lang/Object;"), cps_str("(I[J)V"), cps_str("L;"), cps_str("La//b;"), cps_str("()"), cps_str("(V)V"), cps_str("Lé;"), [vec!['[' as u32; 255], cps_str("I")].concat(), [vec!['[' as u32; 256], cps_str("I")].concat(),
+		cps_str("C"), cps_str("D"), cps_str("F"), cps_str("J"), cps_str("S"), cps_str("Z"), cps_str("B"), cps_str("[C"), cps_str("[D"), cps_str("[F"), cps_str("[J"), cps_str("[S"), cps_str("[Z"), cps_str("[B"), cps_str("[[La/B;"),
+		cps_str("(CDFJSZB)V"), cps_str("([C[D[F[J[S[Z[B)[J"), cps_str("()C"), cps_str("()[S"), cps_str("(J"), cps_str("(JD)"), cps_str("V"), cps_str("[V"), cps_str("(V)I")];
 	for _ in 0..200 * scale { let n = rng.below(8); descs.push((0..n).map(|_| *rng.pick(&alpha)).collect()); }
 	for d in descs {
 		let s: String = d.iter().filter_map(|&c| char::from_u32(c)).collect();
@@ -388,10 +400,11 @@ fn unescape_cases(r: &mut Report) {
 	for c in cells {
 		if c.contains(['\t', '\n', '\r']) { continue; }
 		let text = format!("tiny\t2\t0\ta\tb\nc\tA\tB\n\tc\t{c}\n");
+		fbh::report::crumb(&format!("property C16\nparser: tiny-v2 (in the harness process)\ninput: class comment cell {c:?}\ninput text:\n{text}"));
 		let got = guarded(|| quill::tiny_v2::read::<2, NsA>(text.as_bytes()).map(|m| m.classes.values().next().and_then(|c| c.javadoc.as_ref().map(|j| j.0.clone()))));
 		r.eval(&format!("unescape:{c}"), true);
 		let (tok, s) = match got { Err(_) => ("RPanic", String::new()), Ok(Err(_)) | Ok(Ok(None)) => ("RErr", String::new()), Ok(Ok(Some(s))) => ("ROk", s) };
-		r.case("case-unescape", format!("CUnesc {} {tok} {}", gstr(&cps_str(&c)), gstr(&cps_str(&s))));
+		r.case("case-unescape", format!("CUnesc {} {tok} {}", gnums(c.bytes().map(|x| x as u64)), gnums(s.bytes().map(|x| x as u64))));
 	}
 }
 
@@ -452,7 +465,7 @@ pub fn run(ctx: &Ctx) -> anyhow::Result<Report> {
 	let _ = std::fs::remove_dir_all(&dir);
 	anyhow::ensure!(outs.len() == inputs.len(), "sandbox returned {} outcomes for {} inputs", outs.len(), inputs.len());
 
-	r.rule = format!("every input runs in a child process of the harness under ulimit (address space {} MiB, stack {} MiB, CPU {} s per batch, {} s CPU per input) with a counting allocator; outcome ok/err is fine, panic / signal / timeout / heap above 32 MiB + 512 x input size is a violation, and so is an accepted class in which one ldc / invokedynamic instruction carries more (nested) bootstrap arguments than the limit the reader documents (MAX_BOOTSTRAP_ARGUMENTS_EXPANDED as read from the source under test, 65536) (each re-run alone before it counts). Inputs: {} valid classes (javac 17 output for --release 8/17 incl. records, sealed, module-info, lambdas, switches, annotations, type annotations; /repo fixtures), every structural field found by an independent walker set to boundary values, truncation at every byte, random byte edits, hand-assembled hostile shapes (truncated instructions, switch ranges, stack-map offset sums, local-variable ranges, exception ranges, code_length, attribute_length up to 4 GiB, self-referential / deep / shared bootstrap arguments, one instruction with 1..255 top-level bootstrap arguments over shared DAGs of exact sizes (each far below or just under the budget, sums 65535 / 65536 / 65537 and far above, through invokedynamic and through ldc), self-referential pool entries, deeply nested element values (arrays, annotations, alternating), huge counts, duplicates, 65535-byte code, invokeinterface descriptors around the writer's u8 argument size), text inputs for tiny v2 / tiny diff / Enigma / nests (fixtures mutated, random lines, invalid UTF-8, huge indentation, very long lines, deep CLASS nesting; a backslash directly before 2-, 3-, 4-byte characters and combining marks, at the end of the line, doubled, before TAB, multi-byte characters next to every structural character, in every comment position / field; every string of length <= 3 over (backslash, n, e-acute, euro, U+10400, TAB, c) as comment cell) and descriptor strings; accepted classes go through write_class and the written bytes are read again. Non-trivial: the parser accepted the input, or the input is a structured mutation of a valid file (reaches past the header). Distinct by input bytes.", LIMITS.as_kib / 1024, LIMITS.stack_kib / 1024, LIMITS.cpu_s, INPUT_CPU_LIMIT_MS / 1000, bases.len());
+	r.rule = format!("every input runs in a child process of the harness under ulimit (address space {} MiB, stack {} MiB, CPU {} s per batch, {} s CPU per input) with a counting allocator; outcome ok/err is fine, panic / signal / timeout / heap above 32 MiB + 512 x input size is a violation, and so is an accepted class in which one ldc / invokedynamic instruction carries more (nested) bootstrap arguments than the limit the reader documents (MAX_BOOTSTRAP_ARGUMENTS_EXPANDED as read from the source under test, 65536) (each re-run alone before it counts). Inputs: {} valid classes (javac 17 output for --release 8/17 incl. records, sealed, module-info, lambdas, switches, annotations, type annotations; /repo fixtures), every structural field found by an independent walker set to boundary values, truncation at every byte, random byte edits, hand-assembled hostile shapes (truncated instructions, switch ranges, stack-map offset sums, local-variable ranges, exception ranges, code_length, attribute_length up to 4 GiB, self-referential / deep / shared bootstrap arguments, one instruction with 1..255 top-level bootstrap arguments over shared DAGs of exact sizes (each far below or just under the budget, sums 65535 / 65536 / 65537 and far above, through invokedynamic and through ldc), self-referential pool entries, deeply nested element values (arrays, annotations, alternating), huge counts, duplicates, 65535-byte code, invokeinterface descriptors around the writer's u8 argument size), text inputs for tiny v2 / tiny diff / Enigma / nests (fixtures mutated, random lines, invalid UTF-8, huge indentation, very long lines, deep CLASS nesting; a backslash directly before 2-, 3-, 4-byte characters and combining marks, at the end of the line, doubled, before TAB, multi-byte characters next to every structural character, in every comment position / field; every string of length <= 3 over (backslash, n, e-acute, euro, U+10400, TAB, c) as comment cell) and descriptor strings; accepted classes go through write_class and the written bytes are read again. Whole-file correspondence: every text input of at most 4096 bytes (all targeted shapes and fixtures, the other streams sampled down to 5000 per quick run) is also a case CText for the model of the WHOLE parser (tiny v2 with 1 / 2 / 3 namespaces, tiny diff, Enigma, nests; coq/C16/ModelText.v, UTF-8 bytes), compared by exact outcome class ok / err / panic; element-value nesting is compared at 18 depths x 8 patterns against the three-function model whose increments are read from the source. Non-trivial: the parser accepted the input, or the input is a structured mutation of a valid file (reaches past the header). Distinct by input bytes.", LIMITS.as_kib / 1024, LIMITS.stack_kib / 1024, LIMITS.cpu_s, INPUT_CPU_LIMIT_MS / 1000, bases.len());
 
 	// group failures so that the report shows each distinct failure once, smallest input first
 	struct Fail { what: String, replay: String, len: usize, count: u64, known: Option<&'static str> }
@@ -463,6 +476,7 @@ pub fn run(ctx: &Ctx) -> anyhow::Result<Report> {
 	// correspondence cases; the heavy ones (up to 65537 model steps each) are spread evenly over the shards
 	let mut light_cases: Vec<(&'static str, String)> = vec![];
 	let mut heavy_cases: Vec<(&'static str, String)> = vec![];
+	let mut text_cases: Vec<(&'static str, String)> = vec![];
 	for (inp, o) in inputs.iter().zip(outs.iter()) {
 		let bytes = inp.bytes(&bases);
 		let kname = match inp.kind { K_MDESC | K_RDESC => "descriptor", k => KIND_NAMES[k as usize] };
@@ -516,7 +530,30 @@ pub fn run(ctx: &Ctx) -> anyhow::Result<Report> {
 			} else {
 				light_cases.push((inp.stream, format!("{prefix} {tok}")));
 			}
+		} else if matches!(inp.kind, K_TINY | K_DIFF | K_ENIGMA | K_NESTS) && bytes.len() <= TEXT_CASE_MAX_BYTES {
+			// the whole text file against the model of the whole parser (coq/C16/ModelText.v): exact
+			// outcome class ok / err / panic.  The tiny v2 outcome is that of read::<2, _> (a panic of
+			// read::<3, _> is reported as the outcome, the model then disagrees as well).
+			let tok = if failure.is_some() && (o.confirmed || mem_bad) { "RPanic" } else if o.res == Res::Ok { "ROk" } else { "RErr" };
+			let k = match inp.kind { K_TINY => 0, K_DIFF => 1, K_ENIGMA => 2, _ => 3 };
+			let gb = gnums(bytes.iter().map(|&x| x as u64));
+			text_cases.push((inp.stream, format!("CText {k} 2 {gb} {tok}")));
+			r.count(&format!("text-case:{kname}:{tok}"));
+			// the same file through read::<3, _> and read::<1, _> (the latter always refuses)
+			if inp.kind == K_TINY && tok != "RPanic" && o.aux & 4 != 0 && (matches!(inp.stream, "text-targeted" | "text-valid") || text_cases.len() % 5 == 0) {
+				text_cases.push((inp.stream, format!("CText 0 3 {gb} {}", if o.aux & 2 != 0 { "ROk" } else { "RErr" })));
+				text_cases.push((inp.stream, format!("CText 0 1 {gb} {}", if o.aux & 1 != 0 { "ROk" } else { "RErr" })));
+			}
 		}
+	}
+	{
+		// whole-file cases: all of the targeted / hostile-cell streams, the others up to a budget
+		let budget = if ctx.thorough { usize::MAX } else { 5000 };
+		let (must, rest): (Vec<_>, Vec<_>) = text_cases.into_iter().partition(|(s, _)| matches!(*s, "text-targeted" | "text-valid" | "regression"));
+		let take_rest = budget.saturating_sub(must.len());
+		let step = (rest.len() / take_rest.max(1)).max(1);
+		for c in must { light_cases.push(c); }
+		for (i, c) in rest.into_iter().enumerate() { if i % step == 0 { light_cases.push(c); } }
 	}
 	{
 		let every = (light_cases.len() / heavy_cases.len().max(1)).max(1);
